@@ -665,31 +665,77 @@ theorem allKnown_map_known (l : List Nat) : allKnown (l.map Dim.known) = some l 
   | nil => rfl
   | cons a l ih => rw [List.map_cons, List.mapM_cons, ih]; rfl
 
-/-- `Flatten2Reshape.check`'s final step on a static shape, from any two-element starting target. -/
-theorem flatten_finish (s : List Nat) (axis : Nat) (ns : List Int) (hns : ns.length = 2) :
+/-- A static annotation has a `known 0` dim exactly when the shape contains `0`. -/
+theorem any_known_zero_map (s : List Nat) :
+    (s.map Dim.known).any (· == .known 0) = true ↔ 0 ∈ s := by
+  induction s with
+  | nil => simp
+  | cons a s ih =>
+    rw [List.map_cons, List.any_cons, Bool.or_eq_true, ih, List.mem_cons]
+    have : (Dim.known a == Dim.known 0) = true ↔ 0 = a := by
+      rw [beq_iff_eq, Dim.known.injEq]; exact eq_comm
+    rw [this]
+
+/-- The zero guard of `Flatten2Reshape.check` (fix for D6): a static zero dim refuses, whatever the target. -/
+theorem flatten_finish_zero (s : List Nat) (axis : Int) (ns : List Int) (h0 : 0 ∈ s) :
+    flattenToReshapeRun.finish (some (s.map Dim.known)) axis ns = .nofire := by
+  have h := (any_known_zero_map s).mpr h0
+  simp only [flattenToReshapeRun.finish, Option.map_some, Option.getD_some, h, if_true]
+
+/-- `Flatten2Reshape.check`'s final step on a static positive shape, from any two-element starting target. -/
+theorem flatten_finish (s : List Nat) (axis : Nat) (ns : List Int) (hns : ns.length = 2)
+    (hpos : ∀ d ∈ s, 0 < d) :
     flattenToReshapeRun.finish (some (s.map Dim.known)) (axis : Int) ns
       = .fire [ (prodNat (s.take axis) : Int), (prodNat (s.drop axis) : Int) ] := by
   match ns, hns with
   | [a, b], _ =>
     have hneg : ¬ ((axis : Int) < 0) := by omega
-    simp only [flattenToReshapeRun.finish, hneg, if_false, Int.toNat_natCast, ← List.map_take,
+    have hz : (s.map Dim.known).any (· == .known 0) = false := by
+      rw [Bool.eq_false_iff]
+      intro h
+      have := hpos 0 ((any_known_zero_map s).mp h)
+      omega
+    simp only [flattenToReshapeRun.finish, Option.map_some, Option.getD_some, hz, Bool.false_eq_true,
+      hneg, if_false, Int.toNat_natCast, ← List.map_take,
       ← List.map_drop, allKnown_map_known, setAt, List.set_cons_zero, List.set_cons_succ]
     have h1 : ¬ ((prodNat (s.take axis) : Int) = -1) := by omega
     have h2 : ¬ ((prodNat (s.drop axis) : Int) = -1) := by omega
     simp [h1, h2]
 
-/-- D1: on a fully static input shape `Flatten2Reshape` fires with target `[∏ s[:axis], ∏ s[axis:]]`. -/
-theorem flatten_fires (s : List Nat) (axis : Nat) (_hax : axis ≤ s.length) :
+/-- D1: on a fully static positive input shape `Flatten2Reshape` fires with target `[∏ s[:axis], ∏ s[axis:]]`. -/
+theorem flatten_fires (s : List Nat) (axis : Nat) (_hax : axis ≤ s.length) (hpos : ∀ d ∈ s, 0 < d) :
     flattenToReshapeRun (some (s.map Dim.known)) (axis : Int) none
       = .fire [ (prodNat (s.take axis) : Int), (prodNat (s.drop axis) : Int) ] := by
   have hneg : ¬ ((axis : Int) < 0) := by omega
   simp only [flattenToReshapeRun, Option.map_some, hneg, if_false]
-  apply flatten_finish
+  apply flatten_finish _ _ _ _ hpos
   split
   · rfl
   · split
     · rfl
     · split <;> rfl
+
+/-- D (zero guard): a static input shape containing `0` never fires (any axis; any output annotation of rank
+`≤ 2`, i.e. one that cannot raise `IndexError`). -/
+theorem flatten_zero_refused (s : List Nat) (axis : Int) (os : Option Shape) (h0 : 0 ∈ s)
+    (hos : os = none ∨ ∃ l, os = some l ∧ l.length ≤ 2) :
+    flattenToReshapeRun (some (s.map Dim.known)) axis os = .nofire := by
+  rcases hos with rfl | ⟨l, rfl, hl⟩
+  · simp only [flattenToReshapeRun]
+    exact flatten_finish_zero s _ _ h0
+  · have hl' : ¬ (l.length > 2) := by omega
+    simp only [flattenToReshapeRun, hl', decide_false, Bool.false_and, Bool.false_eq_true, if_false]
+    exact flatten_finish_zero s _ _ h0
+
+/-- D (converse): if `Flatten2Reshape` fires on a static shape (no output annotation), all dims are positive. -/
+theorem flatten_fire_pos (s : List Nat) (axis : Int) (ns : List Int)
+    (h : flattenToReshapeRun (some (s.map Dim.known)) axis none = .fire ns) : ∀ d ∈ s, 0 < d := by
+  intro d hd
+  cases d with
+  | zero =>
+    rw [flatten_zero_refused s axis none hd (Or.inl rfl)] at h
+    cases h
+  | succ d => omega
 
 /-- D2: for positive dims, the `Reshape(allowzero=0)` with that target computes the `Flatten` shape. -/
 theorem flatten_reshape_sound (s : List Nat) (hpos : ∀ d ∈ s, 0 < d) (axis : Nat) (_hax : axis ≤ s.length) :
@@ -709,10 +755,10 @@ theorem flatten_reshape_sound (s : List Nat) (hpos : ∀ d ∈ s, 0 < d) (axis :
     simp only [List.map_cons, List.map_nil, List.mem_cons, List.not_mem_nil, or_false] at ht
     rcases ht with rfl | rfl <;> (simp; omega)
 
-/-- D3 (refutation): with a zero dim, `Flatten(axis=2)` of `[2,0,3]` is `[0,3]`, but `Reshape([0,3])` copies dim 0
-and needs `2*3 = 0` elements: runtime error. -/
+/-- D3 (former witness, now refused): `Flatten(axis=2)` of `[2,0,3]` is `[0,3]`, but `Reshape([0,3])` copies dim 0
+and needs `2*3 = 0` elements (runtime error); with the zero guard the rule no longer fires on this input. -/
 theorem flatten_refuted :
-    flattenToReshapeRun (some [.known 2, .known 0, .known 3]) 2 none = .fire [0, 3] ∧
+    flattenToReshapeRun (some [.known 2, .known 0, .known 3]) 2 none = .nofire ∧
     specReshape [2,0,3] [0,3] false ≠ some (specFlatten [2,0,3] 2) := by decide
 
 /-! ## E. Reshape ∘ Reshape -/
